@@ -58,6 +58,38 @@ func C17Child(args []string) int {
 			return 3
 		}
 	}
+	if mode == "eio-retry" {
+		// same process: the write fails with EFBIG, the limit is lifted, the same Store is retried
+		signal.Ignore(syscall.SIGXFSZ)
+		var old syscall.Rlimit
+		if err := syscall.Getrlimit(syscall.RLIMIT_FSIZE, &old); err != nil {
+			return 3
+		}
+		lim := syscall.Rlimit{Cur: uint64(limit), Max: old.Max}
+		if err := syscall.Setrlimit(syscall.RLIMIT_FSIZE, &lim); err != nil {
+			return 3
+		}
+		p := file.NewPersistForPath(dir)
+		err1 := p.Store(ctx, name, payload)
+		if err := syscall.Setrlimit(syscall.RLIMIT_FSIZE, &old); err != nil {
+			return 3
+		}
+		if got, err := p.Load(ctx, name); err == nil && !bytes.Equal(got, payload) {
+			return 22 // partial node exposed
+		} else if err1 == nil && err != nil {
+			return 23 // acknowledged but not loadable
+		}
+		if err := p.Store(ctx, name, payload); err != nil {
+			return 20
+		}
+		if got, err := p.Load(ctx, name); err != nil || !bytes.Equal(got, payload) {
+			return 21 // the retried Store reported success but the node is not complete
+		}
+		if err1 != nil {
+			return 10
+		}
+		return 0
+	}
 	if limit >= 0 {
 		lim := syscall.Rlimit{Cur: uint64(limit), Max: uint64(limit)}
 		if err := syscall.Setrlimit(syscall.RLIMIT_FSIZE, &lim); err != nil {
@@ -93,6 +125,14 @@ func c17One(self, base string, size, limit int, mode string, acc *pairAcc, st *c
 			outcome = "store-returned-error"
 			atomic.AddInt64(&st.errored, 1)
 		case ok && ee.ExitCode() == 3:
+			return
+		case ok && ee.ExitCode() >= 20 && ee.ExitCode() <= 23:
+			what := map[int]string{20: "the same process could not store the node after the I/O error had cleared", 21: "a Store retried in the same process after an I/O error reported success but the node is not completely loadable",
+				22: "after a failed write Load returned incomplete bytes (same process)", 23: "an acknowledged Store is not loadable (same process)"}[ee.ExitCode()]
+			sig := map[int]string{20: "retry-in-same-process-fails", 21: "retry-in-same-process-does-not-repair", 22: "partial-node-exposed|same-process", 23: "acknowledged-store-incomplete|same-process"}[ee.ExitCode()]
+			atomic.AddInt64(&st.errored, 1)
+			acc.add(&world.Config{Name: "persist/file"}, "C17", []explore.Finding{{Sig: "C17|" + sig, What: what, Detail: fmt.Sprintf("node of %d bytes, write cut at byte %d", size, limit)}},
+				[]string{fmt.Sprintf("node of %d bytes; Store with the write failing (EFBIG) at byte %d; limit lifted; Store again; Load - all in one process", size, limit)})
 			return
 		default:
 			outcome = "process-died"
@@ -177,7 +217,10 @@ func C17(run *report.Run) {
 			step = 97 // very large nodes: every 97th offset plus both ends (reported)
 		}
 		for n := 0; n <= s; n += step {
-			for _, m := range []string{"kill", "eio"} {
+			for _, m := range []string{"kill", "eio", "eio-retry"} {
+				if m == "eio-retry" && (n >= s || (s > 100 && n%16 != 0)) {
+					continue // the in-process retry: every offset of the small nodes, every 16th of the larger ones
+				}
 				jobs = append(jobs, job{s, n, m})
 			}
 		}
